@@ -265,6 +265,40 @@ def graph_deepcopy_fails(case):
     return None
 
 
+def graph_deepcopy_workarray_fails(case):
+    """a graph with a hand-wrapped work array, evaluated forward at x1, deep-copied, the COPY evaluated at x2: a reverse sweep on
+    the original (no new forward evaluation) still answers for x1 -- the copy has its own work array"""
+    import copy
+    x1, x2 = np.array(case['x1'], dtype=float), np.array(case['x2'], dtype=float)
+    f = lambda z: float((z[0] * z[1]) ** 2 + np.sin(z[0]) ** 2)
+    g = lambda z: np.array([2 * z[0] * z[1] ** 2 + 2 * np.sin(z[0]) * np.cos(z[0]), 2 * z[0] ** 2 * z[1]])
+    mk = lambda z: UTPM(z.reshape(1, 1, 2).copy())
+    cg = algopy.CGraph()
+    fx = algopy.Function(mk(np.array(case['rec'], dtype=float)))
+    acc = algopy.Function(UTPM(np.zeros((1, 1, 2))))
+    acc[0] = fx[0] * fx[1]
+    acc[1] = algopy.sin(fx[0])
+    fy = algopy.sum(acc * acc)
+    cg.trace_off()
+    cg.independentFunctionList = [fx]
+    cg.dependentFunctionList = [fy]
+    try:
+        cg.pushforward([mk(x1)])
+        cg2 = copy.deepcopy(cg)
+        y2 = float(cg2.function([mk(x2)])[0].data.ravel()[0])
+        cg.pullback([UTPM(np.ones((1, 1)))])
+        gb = np.array(fx.xbar.data).ravel()
+        g2 = np.asarray(cg2.gradient(x2.copy()), dtype=float).ravel()
+    except Exception as ex:
+        return 'graph-deepcopy-workarray-exception: %s' % (type(ex).__name__ + ':' + str(ex)[:80])
+    if not np.isclose(y2, f(x2), rtol=1e-12, atol=1e-13) or not np.allclose(g2, g(x2), rtol=1e-12, atol=1e-13):
+        return 'graph-deepcopy-workarray-copy: the copy of a graph with a work array does not evaluate / differentiate its program'
+    if not np.allclose(gb, g(x1), rtol=1e-12, atol=1e-13):
+        return ('graph-deepcopy-workarray: after an evaluation of the deep COPY at another point the reverse sweep of the original answers %s, '
+                'its own evaluation point gives %s (the copy shares the work array)') % (gb.tolist(), g(x1).tolist())
+    return None
+
+
 def workarray_results_fail(case):
     """the dependent variable IS a work array wrapped by hand (F(x) = (x0 x1, x1 x2, x2 x0) written entry by entry): what a call
     returned stays what it was when later calls are made (results are values, not windows into the graph's storage)"""
@@ -453,6 +487,8 @@ def replay_case(ctx, case):
         return workarray_ndarray_fails(case)
     if case.get('op') == 'graph-deepcopy':
         return graph_deepcopy_fails(case)
+    if case.get('op') == 'graph-deepcopy-workarray':
+        return graph_deepcopy_workarray_fails(case)
     if case.get('op') == 'workarray-model':
         return workarray_model_mismatch(ctx, case)
     return history_fails(case)
@@ -486,6 +522,13 @@ def run(ctx):
             f = workarray_ndarray_fails(case)
             if f:
                 ctx.report(case, 'failure', f)
+    for i in range(2):
+        case = {'op': 'graph-deepcopy-workarray', 'rec': rand_coeffs(rng, (2,), -2, 2), 'x1': rand_coeffs(rng, (2,), -2, 2) + 0.125, 'x2': rand_coeffs(rng, (2,), -2, 2) - 0.375}
+        ctx.evaluations += 1
+        ctx.count('graph-deepcopy-workarray')
+        f = graph_deepcopy_workarray_fails(case)
+        if f:
+            ctx.report(case, 'failure', f)
     for i in range(3):
         case = {'op': 'graph-deepcopy', 'rec': rand_coeffs(rng, (3,), -2, 2),
                 'calls': [[rng.choice(['copy', 'original']) if j else 'copy', rand_coeffs(rng, (3,), -2, 2)] for j in range(4)]}
